@@ -217,4 +217,30 @@ theorem lockfam_hb {cap : Bool} {es : List (Tid × Ev)} {s : St} (h : run true c
   obtain ⟨_, hm, hl⟩ := hb_sim h
   exact HB.lockset_hb hm hl hij hc
 
+theorem hbTrace_access {es : List (Tid × Ev)} {i : Nat} {t : Tid} {ei : HB.Ev} {x : HB.Loc}
+    (h : (hbTrace es)[i]? = some (t, ei)) (ha : ei.accesses x) : x = 0 := by
+  simp only [hbTrace, List.getElem?_map] at h
+  cases hk : es[i]? with
+  | none => simp [hk] at h
+  | some p =>
+    obtain ⟨u, e⟩ := p
+    simp [hk] at h
+    obtain ⟨_, h2⟩ := h
+    subst h2
+    cases e with
+    | lk sd how ok => cases ok <;> rcases ha with ha | ha <;> cases ha
+    | rd v => rcases ha with ha | ha <;> cases ha; rfl
+    | wr v => rcases ha with ha | ha <;> cases ha; rfl
+    | _ => rcases ha with ha | ha <;> cases ha
+
+/-- no accepted trace of the wrapper model (locking enabled) contains a data race -/
+theorem lockfam_no_race {cap : Bool} {es : List (Tid × Ev)} {s : St} (h : run true cap es = some s) :
+    ¬ HB.Race (hbTrace es) := by
+  intro ⟨i, j, hij, ⟨x, hc⟩, hn⟩
+  have hx : x = 0 := by
+    obtain ⟨t, u, ei, ej, h1, _, ha, _⟩ := hc
+    exact hbTrace_access h1 ha
+  subst hx
+  exact hn (lockfam_hb h hij hc)
+
 end ConcVerif.LockFam
